@@ -6,7 +6,8 @@ Trace == ndJsonDeserialize(IOEnv.TRACE_FILE)
 VARIABLE l
 Rec(i) == Trace[i]
 CfgOfRec(r) == [f |-> r.f, acceptAny |-> r.any, acceptNonempty |-> r.nonempty, minLength |-> r.minLength,
-                minWords |-> r.minWords, explainMin |-> r.explainMin, pattern |-> r.pattern, explainVal |-> r.explainVal]
+                minWords |-> r.minWords, explainMin |-> r.explainMin, pattern |-> r.pattern, explainVal |-> r.explainVal,
+                debug |-> r.debug]
 Expected(r) == Outcome(CfgOfRec(r), r.expect, r.input)
 Verdict(i) == LET r == Rec(i) e == Expected(r) IN
               IF r.obs = e THEN TRUE ELSE PrintT(<<"REJECT", r.id, e>>)
